@@ -27,13 +27,15 @@ Inductive tfs :=
 | TStat (p : str) | TOpendir (p : str) | TOpenR (p : str) | TCreat (p : str)
 | TUtime (p : str) | TUnlink (p : str) | TMkdirOp (p : str)
 | TStatEntry (dir name : str)    (* stat(dir "/" name) for an entry of the listed directory *)
-| TOverflow.                     (* strcpy/strcat beyond fullpath[PATH_MAX] in CreateFileListInfo *)
+| TOverflow                      (* strcpy/strcat beyond fullpath[PATH_MAX] in CreateFileListInfo *)
+| TLostFd.                       (* HandleFileUpload sets uploadFD = -1 while the previous upload's descriptor is
+                                    still open: it is never closed (not by the close hook either) *)
 
 Definition tfs_path (o : tfs) : str :=
   match o with
   | TStat p | TOpendir p | TOpenR p | TCreat p | TUtime p | TUnlink p | TMkdirOp p => p
   | TStatEntry d n => d ++ 47 :: n
-  | TOverflow => []
+  | TOverflow | TLostFd => []
   end.
 
 (* rtcp->rcft.rcfu.fName (as C string), uploadInProgress, and whether the connection is still there *)
@@ -94,7 +96,8 @@ Definition tight_step (v : tvariant) (root : str) (st : tstate) (m : tmsg) : lis
         let '(pre, st1) := if fundone v then close_undone st else ([], st) in
         (* the name is read straight into rtcp->rcft.rcfu.fName, then converted in place *)
         match conv v root n with
-        | Some p => (pre ++ [TCreat p], {| up_name := p; up_active := ok; t_alive := t_alive st1 |})
+        | Some p => (pre ++ (if up_active st1 then [TLostFd] else []) ++ [TCreat p],
+                     {| up_name := p; up_active := ok; t_alive := t_alive st1 |})
         | None => (pre, {| up_name := (if fstale v then [] else cstr n); up_active := up_active st1; t_alive := t_alive st1 |})
         end
       else ([], st)
